@@ -367,7 +367,11 @@ class GeoBoxBase:
 
         if isinstance(shape, (int, float)):
             nmax = max(*self._shape)
-            return self.compute_zoom_out(nmax / shape)
+            factor = nmax / shape
+            # s/(nmax/shape) in doubles can land just above an integer and ceil() to shape+1,
+            # compute sides from the exact product instead so that the longest side is ``shape``
+            ny, nx = (max(1, math.ceil((s * shape) / nmax)) for s in self._shape)
+            return (shape_((ny, nx)), self._affine * Affine.scale(factor, factor))
 
         shape = shape_(shape)
         sy, sx = (N / float(n) for N, n in zip(self._shape, shape.shape))
